@@ -703,6 +703,13 @@ class VPK:
         path, name, ext = _get_file_parts(filename, root)
         if not _check_is_ascii(path) or not _check_is_ascii(name) or not _check_is_ascii(ext):
             raise ValueError(f'VPK filename {filename!r} must be ASCII format!')
+        for part in (path, name, ext):
+            # Strings are null-terminated, and ' ' is how an empty string is stored.
+            if '\x00' in part or part == ' ':
+                raise ValueError(
+                    f'VPK filename {filename!r} cannot be stored: null characters and '
+                    'folders/names/extensions consisting of a single space are not representable!'
+                )
 
         try:
             ext_infos = self._fileinfo[ext]
